@@ -104,6 +104,11 @@ func judgeWrites(c *vs.Case, e *Env, t *SyncTrace, parent map[string]any, epoch 
 				return vs.Violf("C02/write-after-own-release", "%s wrote an object that this very sync had released before (%s)", desc, rel)
 			}
 			// the only other legal write: the adoption edit of a matching orphan
+			if pns := metaStr(parent, "namespace"); pns != "" && metaStr(r.Pre, "namespace") != pns && isAdoptionEdit(r.Pre, r.Post, uid) {
+				// an owner reference cannot point across namespaces (the garbage collector treats such an owner as
+				// absent): a namespaced parent has nothing to adopt outside its own namespace, look-alike or not
+				return vs.Violf("C02/adoption-outside-parent-namespace", "%s made the namespaced parent %s/%s (uid %s) the controller of an object outside its namespace (object namespace %q, labels %v)", desc, pns, metaStr(parent, "name"), uid, metaStr(r.Pre, "namespace"), LabelsOf(r.Pre))
+			}
 			if cfg.Kind == "composite" && ControllerRefs(r.Pre) == 0 && isAdoptionEdit(r.Pre, r.Post, uid) {
 				// the adoption decision is taken on the observed (cached) object, like every
 				// ControllerRefManager; the live one may have been relabelled since
@@ -305,6 +310,12 @@ func PropC02(c *vs.Case, f Factory, kind string) error {
 			scn.Prog.Children[i].OwnerRefs = []map[string]any{{"apiVersion": "ex.io/v1", "kind": "Thing", "name": "someone", "uid": "uid-foreign", "controller": true, "blockOwnerDeletion": true}}
 			c.Class("desired-carries-foreign-controller")
 		}
+	}
+	if kind == "composite" && scn.ParentNS() != "" && scn.Cfg.ChildCfgOf("cwidgets") == nil && c.Prob(1, 6) {
+		// a namespaced parent whose controller also declares a cluster-scoped child kind (the hook never asks for
+		// one): cluster-scoped look-alikes are outside the parent's namespace like any object of another namespace
+		scn.Cfg.Children = append(scn.Cfg.Children, ChildCfg{Resource: "cwidgets", Method: "InPlace"})
+		c.Class("namespaced-parent-declares-cluster-scoped-kind")
 	}
 	env, err := NewEnv(scn, f)
 	if err != nil {
